@@ -59,14 +59,16 @@ def threshold_table(chk, qual, rule, classify):
         return
     ok = True
     table = []
-    for ru, ra in itertools.product("<=>", repeat=2):
+    # "u": the pool reports NaN for that quantity -- every ordered comparison is then False, so neither condition holds
+    for ru, ra in itertools.product("<=>u", repeat=2):
         it = Interp(prog, fi)
+        it.all_rel = frozenset("<=>u")
         p = Path()
         it.set_rel(UTIL, LOW, frozenset(ru), p)
         it.set_rel(ALLOC, HIGH, frozenset(ra), p)
         outs = it.run(path=p)
         chk.count(len(outs))
-        label = "utilisation %s low_utilisation, allocation %s high_allocation" % (ru, ra)
+        label = "utilisation %s low_utilisation, allocation %s high_allocation" % (ru.replace("u", "NaN vs"), ra.replace("u", "NaN vs"))
         for o in outs:
             if o.kind not in ("normal", "return"):
                 chk.bad(rule, name, "regulate ends by %s for %s" % (o.kind, label), node=fi.node, stmt="exit", input=label)
@@ -84,7 +86,7 @@ def threshold_table(chk, qual, rule, classify):
                 chk.bad(rule, name, "%s: %s" % (label, err), node=fi.node, stmt=err[:80], input=label)
                 ok = False
     if ok:
-        chk.ok(rule, name, "decision table over all 9 orderings matches the documented one", node=fi.node, input="; ".join("%s:%s" % (k, [(s, show(a)) for s, a in e]) for k, e in table))
+        chk.ok(rule, name, "decision table over all 16 orderings (incl. NaN readings) matches the documented one", node=fi.node, input="; ".join("%s:%s" % (k, [(s, show(a)) for s, a in e]) for k, e in table))
 
 
 def linear(chk):
